@@ -1,6 +1,6 @@
 (* C07 - PAM protection edits are applied and annotated exactly as requested. *)
 From VV Require Import Model.Base Model.Pattern Model.Gpo Model.Views Spec.LiftSpec Proofs.ViewsProofs Proofs.PamSeqProofs Proofs.ViewsSgrnaProofs
-  Model.CodonTable Model.Transcript Model.PpeSeq Model.PamAnnot Proofs.AnnotWalkProofs Proofs.PpeSeqProofs Proofs.PamAnnotProofs Proofs.GpoTop Model.PamSeqBg Proofs.PpeSeqBgProofs.
+  Model.CodonTable Model.Transcript Model.PpeSeq Model.PamAnnot Proofs.AnnotWalkProofs Proofs.PpeSeqProofs Proofs.PamAnnotProofs Proofs.GpoTop Model.PamSeqBg Proofs.PpeSeqBgProofs Proofs.PamAnnotBgProofs.
 
 (* pam_seq carries the ALT base at the positions of the applied edits (those that get_ppe_seq hands to apply_variants:
    listed sgRNA, inside the targeton, sorted by position) and the background base everywhere else *)
@@ -115,6 +115,19 @@ Theorem C07_pam_annot_is_walk_translation : forall tb t q_ref q_alt p m,
     m = aa_change a_ref a_alt.
 Proof. exact pam_annot_is_walk_translation. Qed.
 
+(* the same under background variants: the reference codon is read in the annotated transcript on the reference at the edit's reference position,
+   the protected codon in the lifted transcript on the background sequence at its background position - each at three positions of its own
+   coding walk that hold the position - and the annotation is the change between the two translations *)
+Theorem C07_pam_annot_under_background : forall tb t_ref t_alt q_ref q_alt p_ref p_alt m,
+  ppe_mut_type tb t_ref t_alt q_ref q_alt p_ref p_alt = Ok m -> covers q_ref t_ref -> covers q_alt t_alt ->
+  exists e_r r_r c_r e_a r_a c_a a_ref a_alt,
+    exon_at_pos t_ref p_ref = Some e_r /\ exon_get_codon_at (t_strand t_ref) e_r p_ref = Ok (Some r_r) /\ get_cds_seq_exon t_ref q_ref e_r r_r = Ok c_r /\
+    exon_at_pos t_alt p_alt = Some e_a /\ exon_get_codon_at (t_strand t_alt) e_a p_alt = Ok (Some r_a) /\ get_cds_seq_exon t_alt q_alt e_a r_a = Ok c_a /\
+    zlen (walk_segment c_r r_r) = 3 /\ In p_ref (walk_segment c_r r_r) /\ seq_get_at q_ref (walk_segment c_r r_r) = Ok (c_ext c_r) /\
+    zlen (walk_segment c_a r_a) = 3 /\ In p_alt (walk_segment c_a r_a) /\ seq_get_at q_alt (walk_segment c_a r_a) = Ok (c_ext c_a) /\
+    translate tb (c_ext c_r) = Ok a_ref /\ translate tb (c_ext c_a) = Ok a_alt /\ m = aa_change a_ref a_alt.
+Proof. exact pam_annot_bg_is_walk_translation. Qed.
+
 Example C07_pam_annot_example :
   ppe_mut_types true ex_tb ex_t ex_t ex_ref ex_alt1 [(21, 21)] = Ok [Syn] /\
   ppe_mut_types true ex_tb ex_t ex_t ex_ref ex_alt2 [(20, 20)] = Ok [Mis] /\
@@ -126,3 +139,4 @@ Print Assumptions C07_edits_applied_exactly_inside_targeton.
 Print Assumptions C07_pam_annot_is_walk_translation.
 Print Assumptions C07_pam_annot_example.
 Print Assumptions C07_edits_applied_under_background.
+Print Assumptions C07_pam_annot_under_background.
